@@ -176,7 +176,11 @@ def hardcoded_password_funcarg(context):
     """
     # looks for "function(candidate='some_string')"
     for kw in context.node.keywords:
-        if isinstance(kw.value, ast.Str) and RE_CANDIDATES.search(kw.arg):
+        if (
+            isinstance(kw.value, ast.Str)
+            and kw.arg is not None  # "**'x'" has no keyword name
+            and RE_CANDIDATES.search(kw.arg)
+        ):
             return _report(kw.value.s)
 
 
